@@ -76,9 +76,20 @@ def minLength (v : Variant) : Nat := if v.buckets = 48 then 10 else 50
 def minLengthConservative (v : Variant) : Nat := if v.buckets = 48 then 10 else 128
 def minNonzero (v : Variant) : Nat := if v.buckets = 48 then 18 else v.buckets / 2 + 1
 
+/-- Insert into an ascending list. -/
+def insertAsc (x : Nat) : List Nat → List Nat
+  | [] => [x]
+  | y :: ys => if x ≤ y then x :: y :: ys else y :: insertAsc x ys
+
+/-- The ascending rearrangement of a list (insertion sort — chosen for
+obviousness, and because it reduces inside the kernel). -/
+def sortAsc : List Nat → List Nat
+  | [] => []
+  | x :: xs => insertAsc x (sortAsc xs)
+
 /-- Quartile thresholds: the values at positions n/4−1, n/2−1, 3n/4−1 of the sorted buckets. -/
 def quartiles (b : List Nat) : Nat × Nat × Nat :=
-  let s := b.mergeSort (fun x y => decide (x ≤ y))
+  let s := sortAsc b
   let n := b.length
   (s.getD (n / 4 - 1) 0, s.getD (n / 2 - 1) 0, s.getD (3 * n / 4 - 1) 0)
 
